@@ -569,6 +569,18 @@ fn random_trace(mode: &str, rng: &mut SmallRng, steps: usize) -> Sim {
                         }
                     }
                 }
+                "drop" => {
+                    // a burst of drops: in a third of the cases the application lets go of ALL its streams on that endpoint at once
+                    // (a struct that holds several of them goes out of scope), with no poll of the task in between -- the
+                    // notifications reach the task as one batch, some of them for flows the peer has already closed
+                    if rng.random_range(0..3) == 0 {
+                        let i = if chosen["e"] == "A" { 0 } else { 1 };
+                        let hs: Vec<u32> = sim.eps[i].streams.keys().copied().collect();
+                        for h in hs {
+                            sim.exec(&json!({"op": "drop", "e": en(i), "h": h}));
+                        }
+                    }
+                }
                 "drop_mux" => {
                     // the same probe as after a fault: streams outlive the Multiplexor; read / write them while the task winds down
                     if rng.random_range(0..2) == 0 {
